@@ -4,8 +4,11 @@ import (
 	"fmt"
 	"time"
 
+	"verifsim/cluster"
 	"verifsim/core"
 	"verifsim/harness"
+
+	"github.com/MixinNetwork/mixin/common"
 )
 
 // rctx bundles the bookkeeping every rig execution needs.
@@ -80,3 +83,8 @@ var r3Components = map[string]string{
 }
 
 var r3Assume = []string{"A1 Badger commit atomic and durable at return", "A3 overlap finer than one Store call equals a serial order or ErrConflict (store mutex + Badger SSI)"}
+
+// snapArg extracts the snapshot argument of an intercepted WriteSnapshot.
+func snapArg(call *cluster.StoreCall) *common.SnapshotWithTopologicalOrder {
+	return call.Args[0].(*common.SnapshotWithTopologicalOrder)
+}
